@@ -15,6 +15,11 @@ c03::shape_list make_shapes()
                             prod(arg<la, S>("a"), sum<ld>(opt<lb, int>("o", "oo", std::nullopt), usw<lc>("f", "ff")))));
   s.push_back(c03::mk_shape(46, "prod(many(arg<int>), sum(prod(opt<str>, sw), arg<int>))",
                             prod(many(arg<la, int>("a")), sum<le>(prod(opt<lb, S>("o", "oo", std::nullopt), sw<lc>("f", "ff")), arg<ld, int>("d")))));
+  // unit (succeeds exactly on an empty state) as an alternative of a sum and next to optionals:
+  // with arguments left over it must fail so that the other alternative is tried
+  s.push_back(c03::mk_shape(47, "sum(unit, arg<str>)", sum<lc>(unit<la>(), arg<lb, S>("b"))));
+  s.push_back(c03::mk_shape(48, "sum(unit, prod(sw, many(arg<int>)))", sum<ld>(unit<la>(), prod(sw<lb>("f", "ff"), many(arg<lc, int>("c"))))));
+  s.push_back(c03::mk_shape(49, "sum(arg<int>, unit)", sum<lc>(arg<la, int>("a"), unit<lb>())));
   return s;
 }
 }
